@@ -545,6 +545,17 @@ func edgeReaches(from, to *ssa.BasicBlock) bool {
 // reads ahead and keeps the bytes of the next pipelined request when it is
 // discarded. Shared by C01.R5 and C07.R3.
 func readFromConnReaderRule(r *Report, rd *ssa.Function) {
+	// the buffered reader/writer parameter, wherever it is in the signature
+	var brwP *ssa.Parameter
+	for _, p := range rd.Params {
+		if p.Type().String() == "*bufio.ReadWriter" {
+			brwP = p
+		}
+	}
+	if brwP == nil {
+		r.Undecided("(*M.Proxy).readRequest: buffered reader parameter", "UNRESOLVED")
+		return
+	}
 	okRd := true
 	nrd := 0
 	var fs []*ssa.Function
@@ -557,13 +568,13 @@ func readFromConnReaderRule(r *Report, rd *ssa.Function) {
 			for _, l := range resolveAll(c.Common().Args[0]) {
 				if ld, ok := l.(*ssa.UnOp); ok && ld.Op == token.MUL {
 					if fa, isFa := ld.X.(*ssa.FieldAddr); isFa && fieldObj(fa).Name() == "Reader" {
-						if len(rd.Params) > 3 && isParamVal(resolveFree(fa.X), rd.Params[3]) || func() bool {
+						if isParamVal(resolveFree(fa.X), brwP) || func() bool {
 							bl, isL := resolveFree(fa.X).(*ssa.UnOp)
 							if !isL {
 								return false
 							}
 							a, isA := bl.X.(*ssa.Alloc)
-							return isA && len(storesTo(a)) == 1 && storesTo(a)[0].Val == ssa.Value(rd.Params[3])
+							return isA && len(storesTo(a)) == 1 && isParamVal(storesTo(a)[0].Val, rd.Params[3])
 						}() {
 							direct = true
 						}
